@@ -29,6 +29,9 @@ type ReplayFile struct {
 	How      string   `json:"how_to_replay"`
 }
 
+// harnessPresent reports whether a registered harness function exists in the loaded program (nil = all do)
+var harnessPresent func(pkg, fn string) bool
+
 // nativeReplay runs the jobs of one package natively (go test -overlay against the real tree) and
 // returns job id -> (status, failure messages)
 func nativeReplay(pkgDir string, jobs []ReplayJob, reg []HarnessSpec) (map[string]string, map[string][]string, string) {
@@ -44,6 +47,9 @@ func nativeReplay(pkgDir string, jobs []ReplayJob, reg []HarnessSpec) (map[strin
 	defer os.RemoveAll(dir)
 	funcs := map[string][]string{}
 	for _, h := range reg {
+		if harnessPresent != nil && !harnessPresent(h.Pkg, h.Func) {
+			continue // its file was left out: it does not compile against the current tree
+		}
 		funcs[h.Pkg] = append(funcs[h.Pkg], h.Func)
 	}
 	ov := buildOverlay(true, funcs)
